@@ -276,6 +276,80 @@ class FieldOptGuard:
         return n, tr.accept, tr.reject
 
 
+def promoted_value(body, local):
+    """what the promoted constant held (by reference) in `local` evaluates to — 'path::Enum::Variant' or a constant's text — or None"""
+    import re as _re
+    prep(body)
+    F = body._facts
+    seen = set()
+    while local is not None and local not in seen:
+        seen.add(local)
+        nxt = None
+        for b in body.blocks:
+            for st in b["stmts"]:
+                if st["d"] != [local]:
+                    continue
+                rv = st["rv"]
+                if rv["k"] == "use" and rv["a"][0] == "c":
+                    m = _re.match(r"^(.*)::promoted\[(\d+)\]$", rv["a"][1])
+                    if not m:
+                        return None
+                    for hb in F.by_npath.get(norm(m.group(1)), []) or ([F.body(m.group(1))] if F.body(m.group(1)) else []):
+                        try:
+                            pr = F._detail_for(hb.unit)[hb.path].get("promoted") or []
+                        except KeyError:
+                            continue
+                        i = int(m.group(2))
+                        if i < len(pr):
+                            return pr[i] or None
+                    return None
+                if rv["k"] == "use" and rv["a"][0] in ("cp", "mv") and all(e == "*" for e in rv["a"][1][1:]):
+                    nxt = rv["a"][1][0]
+                elif rv["k"] == "ref" and all(e == "*" for e in rv["p"][1:]):
+                    nxt = rv["p"][0]
+                elif rv["k"] == "agg" and rv.get("ak") == "adt" and not rv["ops"]:
+                    return "%s::%s" % (rv["adt"], rv["variant"])
+        local = nxt
+    return None
+
+
+class VariantGuard:
+    """The value produced by `src(body)` (locals, closed under copies and borrows) is the enum variant `name` (index `idx`): accepting
+    edges of a `match` on it (discriminant switch) and of `value == Enum::Name` / `!=` comparisons against that constant."""
+
+    def __init__(self, src, name, idx, label=None):
+        self.src, self.name, self.idx = src, name, idx
+        self.label = label or "value is %s" % name
+
+    def edges(self, body):
+        prep(body)
+        tr = Tracker(body)
+        seeds = set(self.src(body))
+        vals = Taint(body).closure(seeds)
+        n = 0
+        for l in seeds:
+            tr.seed_call_result(l, ("%s#%d" % (self.name, self.idx),), False)
+            n += 1
+        for c in compare_sites(body):
+            if c["op"] not in ("Eq", "Ne"):
+                continue
+            la, lb = op_local(c["a"]), op_local(c["b"])
+            other = lb if la in vals else la if lb in vals else None
+            if other is None:
+                continue
+            pv = promoted_value(body, other)
+            if pv is None:
+                continue
+            n += 1
+            same = pv.split("::")[-1] == self.name
+            if same:
+                tr.seed_bool(c["d"], c["op"] == "Eq")
+            # a comparison with another variant says nothing about this one on its true side; its false side neither
+        tr.run()
+        self.tracker = tr
+        return n, tr.accept, tr.reject
+
+
 class BoolLocalGuard:
     """A boolean computed at statement/terminator found by `finder(body)` → list of (local, true_is_accept)."""
 
